@@ -187,3 +187,73 @@ def ord_direction_rule(ctx, c, rid):
             ctx.violation(rid, key + "|direction", "%s replaces its value when `%s` but the lattice requires `%s` (strict): %s" % (
                 adt.split("::")[-1], rel, want[adt], "equal values would be reported as a change" if "<=" in rel else "the smaller/greater element wins, merge is not the join"),
                 b.loc(site) if site is not None else b.loc())
+
+
+def _tiny_expr(b, local=0, depth=0):
+    """expression tree of a tiny accessor body: ('const', text) | ('call', name, field) | ('cast', e) | ('not', e) | ('eq0', e) | ('?',)"""
+    if depth > 8:
+        return ("?",)
+    defs = [d for d in b.defs_of(local)]
+    if len(defs) != 1:
+        return ("?",)
+    bb, idx, rv = defs[0]
+    if idx == "term":
+        if rv["k"] == "call" and rv.get("f"):
+            fld = None
+            if rv["a"]:
+                p = op_place(rv["a"][0])
+                if p is not None:
+                    fld = self_field_of(b, p)
+            return ("call", rv["f"]["name"], fld)
+        return ("?",)
+    if rv["k"] == "use":
+        o = rv["ops"][0]
+        if o.get("c") is not None:
+            return ("const", str(o["c"]))
+        p = op_place(o)
+        return _tiny_expr(b, pl_local(p), depth + 1) if isinstance(p, int) else ("?",)
+    if rv["k"] == "cast":
+        p = op_place(rv["ops"][0])
+        return ("cast", _tiny_expr(b, pl_local(p), depth + 1)) if isinstance(p, int) else ("?",)
+    if rv["k"] == "un" and rv.get("op") == "Not":
+        p = op_place(rv["ops"][0])
+        return ("not", _tiny_expr(b, pl_local(p), depth + 1)) if isinstance(p, int) else ("?",)
+    if rv["k"] == "bin" and rv.get("op") == "Eq":
+        cs = [o.get("c") for o in rv["ops"]]
+        ps = [op_place(o) for o in rv["ops"]]
+        for k in (0, 1):
+            if cs[k] is not None and str(cs[k]).startswith("0") and isinstance(ps[1 - k], int):
+                return ("eq0", _tiny_expr(b, ps[1 - k], depth + 1))
+    return ("?",)
+
+
+def len_isempty_rule(ctx, c, rid):
+    """an impl of the collection trait `Len` that overrides `is_empty` must agree with its own `len()` (the lattices' bottom test goes through
+    is_empty, comparisons and merges through len / iteration)"""
+    seen = set()
+    for imp in c.impls_of_trait("cc_traits::Len"):
+        if imp["def"] in seen or c.is_test_path(imp["def"]):
+            continue
+        seen.add(imp["def"])
+        bl = c.impl_method(imp, "len")
+        be = c.impl_method(imp, "is_empty")
+        if bl is None or be is None:
+            continue
+        key = "lattices|<%s as Len>" % short_ty(imp["self"])
+        el, ee = _tiny_expr(bl), _tiny_expr(be)
+        verdict = None
+        if el[0] == "const":
+            txt = el[1]
+            if txt.split("_")[0].isdigit():
+                verdict = ee == ("const", "true" if int(txt.split("_")[0]) == 0 else "false")
+            else:
+                # a const generic (`N`): emptiness must be computed from it, a literal answer is wrong for one of its values
+                verdict = ee[0] == "eq0" and (ee[1] == el or ee[1][0] == "call" and ee[1][1] == "len")
+        elif el[0] == "cast" and el[1][0] == "call" and el[1][1] == "is_some":
+            verdict = ee == ("call", "is_none", el[1][2]) or ee == ("not", el[1])
+        elif el[0] == "call" and el[1] == "len":
+            verdict = ee == ("call", "is_empty", el[2]) or ee == ("eq0", el)
+        ctx.inst(rid, key, nontrivial=verdict is not None, sample={"len": el, "is_empty": ee, "decided": verdict is not None})
+        if verdict is False:
+            ctx.violation(rid, key + "|is_empty-disagrees-with-len", "the overridden is_empty() (%s) does not agree with len() (%s): the bottom test of the set/map lattices (is_empty) and their "
+                          "comparisons/merges (len, iteration) would disagree for some value" % (ee, el), be.loc())
